@@ -733,6 +733,10 @@ class TJPTransformer(Transformer[Any, Any]):
         if items and isinstance(items[0], dict):
             # It's a workinghours_spec dict - wrap it as a tuple
             return ("workinghours", items[0])
+        if len(items) >= 2 and not isinstance(items[0], tuple):
+            # leaves <type> <date> [- <date>]: same shape as a resource's leaves
+            end_date = items[2] if len(items) > 2 else items[1]
+            return ("leaves", {"type": self._get_value(items[0]), "start": items[1], "end": end_date})
         return items[0] if items else None
 
     # Reports
